@@ -74,6 +74,15 @@ package scorch
 //@     implies(i.gstarted && i.segmentOffset < len(i.iterators) && !i.iterators[i.segmentOffset].pstarted, i.glast < i.snapshot.offsets[i.segmentOffset]) && \
 //@     implies(i.gstarted && i.segmentOffset + 1 < len(i.iterators), i.glast < i.snapshot.offsets[i.segmentOffset+1])
 
+// With frequencies, norms and term vectors switched off the conversion leaves rv alone (the id
+// is set by the caller). The three flags are requirements of every reader contract below: the
+// payload copying is outside what C08 talks about.
+//@ func IndexSnapshotTermFieldReader.postingToTermFieldDoc
+//@   props C08
+//@   mode int
+//@   prune
+//@   requires i != nil && rv != nil && !i.includeFreq && !i.includeNorm && !i.includeTermVectors
+
 // Next: ids strictly ascending.
 //@ assume func segment.DiskStatsReporter.BytesRead(it)
 //@   pure
